@@ -552,10 +552,20 @@ class PortNamespace(collections.abc.MutableMapping, Port):
         if namespace_options is None:
             namespace_options = {}
 
+        # Setting a ``valid_type`` makes a namespace dynamic. That may not override the ``dynamic`` given in the options or,
+        # if the ``valid_type`` is not overridden either, the one of the port namespace (which can have been reset)
+        if 'dynamic' in namespace_options or 'valid_type' not in namespace_options:
+            dynamic = namespace_options.get('dynamic', port_namespace.dynamic)
+        else:
+            dynamic = None
+
         # Overload mutable attributes of PortNamespace unless overridden by value in namespace_options
         for attr in dir(port_namespace):
             if is_mutable_property(PortNamespace, attr):
                 setattr(self, attr, namespace_options.pop(attr, getattr(port_namespace, attr)))
+
+        if dynamic is not None:
+            self.dynamic = dynamic
 
         if namespace_options:
             raise ValueError(
